@@ -74,6 +74,7 @@ Lemma write_rows_spec t new idx t' : write_rows t new idx = Some t' ->
   (NoDup idx -> forall j, (j < length idx)%nat -> nth (nth j idx O) (t_rows t') [] = nth j new []).
 Proof. unfold write_rows. destruct (negb (length new =? length idx)%nat) eqn:E1; [discriminate|].
   destruct (negb (forallb _ idx)) eqn:E2; [discriminate|]. destruct (negb (forallb _ new)) eqn:E3; [discriminate|].
+  destruct (negb (increasing idx)) eqn:E4; [discriminate|].
   intros [= <-]. unfold nrows. cbn. split; auto. split; [apply write_rows_at_length|]. split.
   - intros k Hk. now apply write_rows_at_other.
   - intros ND j Hj. apply write_rows_at_written; auto.
@@ -85,8 +86,35 @@ Proof. revert rows idx; induction new as [|r new IH]; intros rows [|i idx] H; cb
 Lemma write_rows_wf t new idx t' : wf t -> write_rows t new idx = Some t' -> wf t'.
 Proof. unfold write_rows. intros W. destruct (negb (length new =? length idx)%nat); [discriminate|].
   destruct (negb (forallb _ idx)); [discriminate|]. destruct (negb (forallb _ new)) eqn:E3; [discriminate|].
+  destruct (negb (increasing idx)); [discriminate|].
   intros [= <-] x Hin. cbn in *. apply in_write_rows_at in Hin. destruct Hin as [H|H]; [apply W, H|].
   apply negb_false_iff in E3. apply (forallb_row_ok t new E3 x H). Qed.
+
+(* an accepted index list is strictly increasing, hence without repeats: the NoDup hypothesis of
+   write_rows_spec always holds for an accepted call *)
+Lemma increasing_lt l : increasing l = true -> forall a r, l = a :: r -> forall x, In x r -> (a < x)%nat.
+Proof.
+  induction l as [|a0 l IH]; intros H a r E x Hx; [discriminate|]. injection E as -> ->.
+  destruct r as [|b r]; [destruct Hx|]. cbn [increasing] in H. apply andb_prop in H. destruct H as [H1 H2].
+  apply Nat.ltb_lt in H1. destruct Hx as [<-|Hx]; [exact H1|].
+  pose proof (IH H2 b r eq_refl x Hx). lia.
+Qed.
+Lemma increasing_nodup l : increasing l = true -> NoDup l.
+Proof.
+  induction l as [|a l IH]; intros H; constructor.
+  - intros Hin. pose proof (increasing_lt (a :: l) H a l eq_refl a Hin). lia.
+  - apply IH. destruct l as [|b l]; [reflexivity|]. cbn [increasing] in H. apply andb_prop in H. tauto.
+Qed.
+Lemma write_rows_accepts_increasing t new idx t' : write_rows t new idx = Some t' ->
+  increasing idx = true /\ NoDup idx /\
+  forall j, (j < length idx)%nat -> nth (nth j idx O) (t_rows t') [] = nth j new [].
+Proof.
+  intros H. pose proof (write_rows_spec t new idx t' H) as [_ [_ [_ S]]].
+  unfold write_rows in H. destruct (negb (length new =? length idx)%nat); [discriminate|].
+  destruct (negb (forallb _ idx)); [discriminate|]. destruct (negb (forallb _ new)); [discriminate|].
+  destruct (increasing idx) eqn:E; [|discriminate]. split; [reflexivity|].
+  pose proof (increasing_nodup idx E) as ND. split; [exact ND|]. exact (S ND).
+Qed.
 
 (* ---- append_column *)
 Lemma combine_map_fst {A B} (l : list A) (l' : list B) : length l = length l' -> map fst (combine l l') = l.
